@@ -1,7 +1,7 @@
 (* C01 -- Durable checkpoint never runs ahead of what the consumer settled.
    Model: Model/Stream.v with the ghost log of settled positions (Proofs/StreamProofs.v log_add).
    Tie to /repo: Corr/CorrStream.v. *)
-From Verif Require Import Base.Prelude Base.Bytes Model.Stream Proofs.StreamProofs.
+From Verif Require Import Base.Prelude Base.Bytes Model.Stream Proofs.StreamProofs Proofs.NoSkipProofs.
 Local Open Scope N_scope.
 
 (* (a) For every history -- any interleaving of deliveries, acknowledgements, saves that succeed, fail or
@@ -68,4 +68,48 @@ Example C01_no_skip_refuted :
      Deliver 0 (Sys SCreateColl 3 8); SaveBegin; SaveEnd true; Crash; Open 0 0 sv]) in
   nth 4 outs [] = [Consume 0 KMut (it 2) (MkO 77 2 1 5 18446744073709551615) default_collection 1700000000] /\
   nth 9 outs [] = [Callback BeforeStreamStart; OpenReq 0 (MkO 77 3 1 5 18446744073709551615); Callback AfterStreamStart].
+Proof. vm_compute. split; reflexivity. Qed.
+
+(* (b), the part that holds. A fresh process opens its session; the history then stays within the discipline [grun]
+   checks along the way: deliveries, acknowledgements (of the oldest waiting delivery of a vBucket, or repeated ones),
+   saves in any interleaving with any outcome, scrapes; sequence numbers of a vBucket increase; and nothing is absorbed
+   for a vBucket while one of its deliveries is waiting (the class of K1). Then at every moment, for every delivery
+   (i, q) of vBucket vb that is waiting for its acknowledgement: the tracked position, every document in the store and
+   every document a save in flight is writing for vb are strictly below q -- so wherever the process dies, the restart
+   (C02_stored: the stream is requested from the stored position) delivers it again. [g] is exactly the set of
+   waiting deliveries: any other context has been passed by the position, or is foreign. *)
+Theorem C01_no_skip_partial : forall c st first last sv s1 outs ops g,
+  do_open (init_state c st) first last sv = Some (s1, outs) ->
+  grun s1 gempty ops = Some g ->
+  let s := fst (run s1 ops) in
+  (forall vb i q, In (i, q) (g vb) ->
+     (exists o, nth_error (s_ctxs s) i = Some (vb, o) /\ o_seq o = q) /\
+     (forall cur, s_offs s vb = Some cur -> o_seq cur < q) /\
+     (forall d, in_range (s_range s) vb = true -> s_store s vb = Some d -> d_seq d < q) /\
+     (forall dump dl d, in_range (s_range s) vb = true -> s_inflight s = Some (dump, dl) -> lookup_doc dump vb = Some d -> d_seq d < q)) /\
+  (forall i vb o, nth_error (s_ctxs s) i = Some (vb, o) ->
+     queued i (g vb) = true \/ in_range (s_range s) vb = false \/ exists cur, s_offs s vb = Some cur /\ o_seq o <= o_seq cur).
+Proof.
+  intros c st first last sv s1 outs ops g Ho Hg s.
+  pose proof (GI_run ops s1 gempty g (GI_start _ _ _ _ _ _ _ Ho) Hg) as I. fold s in I.
+  split; [|apply (gi_done s g I)].
+  intros vb i q Hin. split; [apply (gi_ctx s g I vb i q Hin)|]. split; [intros cur Hc; apply (gi_front s g I vb cur i q Hc Hin)|].
+  split.
+  - intros d Rg Hs. destruct (gi_assigned s g I vb Rg) as [cur Hc].
+    pose proof (gi_store s g I vb d cur Hs Hc). pose proof (gi_front s g I vb cur i q Hc Hin). lia.
+  - intros dump dl d Rg Hi Hl. destruct (gi_assigned s g I vb Rg) as [cur Hc].
+    pose proof (gi_infl s g I dump dl vb d cur Hi Hl Hc). pose proof (gi_front s g I vb cur i q Hc Hin). lia.
+Qed.
+Print Assumptions C01_no_skip_partial.
+
+(* the discipline is satisfiable by a history that does something (two deliveries, one acknowledged, a system event once
+   nothing is waiting, saves); the witness of K1 leaves it at the system event *)
+Example C01_discipline :
+  let sv := Srv [(0, 20)] [(0, 77)] [] in
+  let it n := MkI n 1700000000000000000 0 [100] n in
+  let s1 := fst (step (init_state (Cfg false false None []) fempty) (Open 0 0 sv)) in
+  (match grun s1 gempty [Deliver 0 (Marker 1 9); Deliver 0 (Doc KMut (it 1)); Deliver 0 (Doc KMut (it 2)); Ack 0; SaveBegin; Ack 1;
+                          SaveEnd true; Deliver 0 (Sys SCreateColl 3 8); Deliver 0 (Doc KMut (it 4)); SaveBegin; SaveEnd false] with
+   | Some g => g 0 = [(2%nat, 4)] | None => False end) /\
+  grun s1 gempty [Deliver 0 (Marker 1 5); Deliver 0 (Doc KMut (it 1)); Ack 0; Deliver 0 (Doc KMut (it 2)); Deliver 0 (Sys SCreateColl 3 8)] = None.
 Proof. vm_compute. split; reflexivity. Qed.
